@@ -32,6 +32,7 @@ type parserDom struct {
 	precFn    *ssa.Function
 	scc       map[*ssa.Function]bool
 	wrapper   map[*ssa.Function]bool
+	inferring bool // role inference in progress: the classification by wrappers applies
 	root      *ssa.Function
 	forceOpen map[*ssa.Function]bool // SCC members to inline for this analysis
 	// opaqueOnly, when set, replaces the default policy: exactly these functions (and the analysed root) are not followed
@@ -267,7 +268,11 @@ func newParserDom(p *Program) *parserDom {
 		sig := fn.Signature
 		if sig.Recv() == nil && sig.Params().Len() == 1 && sig.Results().Len() == 1 && isTokenType(sig.Params().At(0).Type()) {
 			if b, ok := sig.Results().At(0).Type().Underlying().(*types.Basic); ok && b.Kind() == types.Int {
-				d.precFn = fn
+				// the binding-power table: among several functions of this signature (a helper that picks the power of a
+				// projection's right-hand side has it too) the one the operator loop's own function calls
+				if d.precFn == nil || calledBy(fn, d.exprFn, pkg) && !calledBy(d.precFn, d.exprFn, pkg) || (calledBy(fn, d.exprFn, pkg) == calledBy(d.precFn, d.exprFn, pkg) && distinctConstReturns(fn) > distinctConstReturns(d.precFn)) {
+					d.precFn = fn
+				}
 			}
 		}
 	}
@@ -529,6 +534,45 @@ func (d *parserDom) readsTokensOutsideCore(m *ssa.Function, pkg *ssa.Package) bo
 	return walk(m, true)
 }
 
+// calledBy: fn is a static callee of the expression entry or of a method it calls directly.
+func calledBy(fn, from *ssa.Function, pkg *ssa.Package) bool {
+	if from == nil {
+		return false
+	}
+	for _, c := range staticCallees(from) {
+		if c == fn {
+			return true
+		}
+	}
+	return false
+}
+
+func distinctConstReturns(fn *ssa.Function) int {
+	seen := map[string]bool{}
+	var visit func(v ssa.Value, depth int)
+	visit = func(v ssa.Value, depth int) {
+		if depth > 4 {
+			return
+		}
+		switch x := v.(type) {
+		case *ssa.Const:
+			if x.Value != nil {
+				seen[x.Value.ExactString()] = true
+			}
+		case *ssa.Phi:
+			for _, e := range x.Edges {
+				visit(e, depth+1)
+			}
+		}
+	}
+	for _, ret := range returnsOf(fn) {
+		if len(ret.Results) == 1 {
+			visit(ret.Results[0], 0)
+		}
+	}
+	return len(seen)
+}
+
 func takesString(sig *types.Signature) bool {
 	for i := 0; i < sig.Params().Len(); i++ {
 		if b, ok := sig.Params().At(i).Type().Underlying().(*types.Basic); ok && b.Info()&types.IsString != 0 {
@@ -541,6 +585,11 @@ func takesString(sig *types.Signature) bool {
 func (d *parserDom) isOpaque(callee *ssa.Function) bool {
 	if d.opaqueOnly != nil {
 		return d.opaqueOnly[callee] || callee == d.root
+	}
+	if rl := d.p.memoRoles; rl != nil && rl.why == "" && len(rl.byFn) > 3 && !d.inferring {
+		// once the grammar functions are known: they are the sub-parsers; every other function of the recursive core (a
+		// helper that parses a comma-separated list for two of them, an arity helper) is interpreted where it is called
+		return d.scc[callee] && !d.forceOpen[callee] && (callee == d.exprFn || rl.byFn[callee] != "")
 	}
 	return d.scc[callee] && !d.forceOpen[callee] && (callee == d.exprFn || !d.wrapper[callee])
 }
